@@ -33,6 +33,13 @@ class BytesSrc:
         return self.data[rel : rel + n]
 
 
+class BlobSrc(BytesSrc):
+    """Literal bytes that are an opaque payload (a deflate stream, ciphertext), not a structure with fields: a reader cannot
+    tell a shortened delivery of such bytes from a complete one, so the 'short read of metadata' fault leaves them alone."""
+
+    __slots__ = ()
+
+
 class PatSrc:
     """Content-function extent: byte `rel` belongs to sector lba0 + rel // 512 of (layer, wid)."""
 
@@ -61,6 +68,7 @@ class SimFile:
         self._ov: dict[int, list] = {}
         self.trunc_at: int | None = None  # fault: visible length
         self.ledger = {"calls": 0, "req": 0, "ret": 0, "data": 0, "raw": 0}
+        self._blob_served = 0
         self._raw_served = 0  # bytes of literal extents (headers, tables, compressed blobs) handed out by pread
         self._pat_served = 0  # bytes of guest-data extents (content function) handed out by pread, any caller
         self.mutations = 0
@@ -96,6 +104,10 @@ class SimFile:
     def write(self, off: int, data: bytes) -> None:
         if data:
             self._put(off, off + len(data), BytesSrc(data))
+
+    def write_blob(self, off: int, data: bytes) -> None:
+        if data:
+            self._put(off, off + len(data), BlobSrc(data))
 
     def write_pat(self, off: int, layer: int, wid: int, lba0: int, nsectors: int) -> None:
         self._put(off, off + nsectors * 512, PatSrc(layer, wid, lba0))
@@ -150,6 +162,8 @@ class SimFile:
                     self._pat_served += take
                 else:
                     self._raw_served += take
+                    if type(s) is BlobSrc or (type(s) is _Shift and type(s.src) is BlobSrc):
+                        self._blob_served += take
                 if len(chunk) < take:
                     chunk = chunk + bytes(take - len(chunk))
                 out.append(chunk)
@@ -315,6 +329,11 @@ class SimHandle:
         if name is not None:
             self.name = name
         self.eio_at: int | None = None  # fault: raise EIO on the k-th read call of this handle
+        # flavour of the armed fault: 'eio' (raise, position untouched), 'eio_partial' (the position has moved on by part of the
+        # request when the error surfaces - a buffered reader whose second raw read failed), 'short_meta' (the first read at or
+        # after the k-th that is served from literal bytes only - headers, tables - delivers fewer bytes than asked for and than
+        # are there, as an unbuffered handle may)
+        self.fault_kind = "eio"
         self.reads = 0
         self.bytes_req = 0
         self.bytes_ret = 0
@@ -330,11 +349,15 @@ class SimHandle:
         if self.closed:
             raise ValueError("I/O operation on closed file.")
         self.reads += 1
-        if self.eio_at is not None and self.reads >= self.eio_at:
+        if self.eio_at is not None and self.reads >= self.eio_at and self.fault_kind != "short_meta":
             w = self._world
+            kind = self.fault_kind
             if w is not None:
-                w.faults_fired["eio_on_read"] += 1
+                w.faults_fired["eio_on_read" if kind == "eio" else "eio_partial"] += 1
             self.eio_at = None
+            self.fault_kind = "eio"
+            if kind == "eio_partial" and n is not None and n > 1:
+                self._pos += min(n // 2, 4096, max(0, self._f.visible_length() - self._pos))
             raise SimIOError(errno.EIO, "Input/output error (injected)")
         if n is None or n < 0:
             n = max(0, self._f.visible_length() - self._pos)
@@ -343,7 +366,15 @@ class SimHandle:
             self.max_req = n
         d0 = self._f._pat_served
         r0 = self._f._raw_served
+        b0 = self._f._blob_served
         buf = self._f.pread(self._pos, n, self._seq())
+        if (self.eio_at is not None and self.reads >= self.eio_at and self.fault_kind == "short_meta" and len(buf) >= 8
+                and self._f._pat_served == d0 and self._f._raw_served - r0 == len(buf) and self._f._blob_served == b0):
+            buf = buf[: max(1, len(buf) * 3 // 4 - 1)]
+            self.eio_at = None
+            self.fault_kind = "eio"
+            if self._world is not None:
+                self._world.faults_fired["short_read_meta"] += 1
         self._pos += len(buf)
         self.bytes_ret += len(buf)
         led = self._f.ledger
